@@ -60,7 +60,9 @@ CHECKS['C06'] = ('4.C06', 'For 25 (quick) / 40 (thorough) byte-oriented and UTF-
                  'eager == lazy. One recorded finding (D12, cr_crlf eol rule) is excluded by a narrow predicate and re-confirmed on every run.')
 CHECKS['C11'] = ('4.C11', 'The real analyze_cycles_impl::work() (recursion cut, containers replaced by array-backed stand-ins) is proved to satisfy the frame contract from which soundness follows by '
                  'induction: every sub-rule enterable at the start position is explored without over-claiming consumption, re-entry without consumption is counted, the consumes-verdict is conservative; '
-                 'counterexamples are replayed as whole analyze runs of the real code on an abstract grammar against a reference. The conservativeness of analyze_traits is argued in DESIGN.md, not checked here.')
+                 'counterexamples are replayed as whole analyze runs of the real code on an abstract grammar against a reference. (b) the analyze_traits tree of each rule family, dumped from the compiler on every run, is proved '
+                 'conservative against the real rule over symbolic sub-rules: verdict always-consumes => real success consumes; every sub-rule really entered at the start position is a trait edge reachable without consumption; '
+                 'a repetition that can spin is a reported self-edge.')
 CHECKS['C15'] = ('4.C15', 'accumulate_digit is proved exact-or-overflow from every accumulator state for all 8 integer types and ~70 maxima (step lemma); the digit loops and convert_* kernels on symbolic digit '
                  'strings up to width+1 digits (8/16-bit exhaustive, 32/64-bit to 11/8 digits plus boundary neighbourhoods, -ftrapv for source-level overflow); all integer rules and actions on symbolic bytes '
                  'for syntax (no superfluous zeros, signs), consumption, rewind, stored value or reported overflow.')
